@@ -1,5 +1,263 @@
-//! Inventory-level operations (filled in below).
-use serde_json::Value as J;
-pub fn run(_req: &mut J) -> Result<J, String> {
-    Err("inventory op not built yet".into())
+//! Inventory-level operation: build a real directory tree, construct `Reclass`, discover,
+//! render every node and the whole inventory.  Also produces what the model needs: the
+//! directory listing (own walk, following symlinks) and the post-YAML content of every file.
+use crate::codec::*;
+use reclass_rs::verif::{self, CompatFlag, Config};
+use reclass_rs::Reclass;
+use serde_json::{json, Map, Value as J};
+use std::collections::BTreeMap;
+use std::path::{Path, PathBuf};
+use std::sync::atomic::{AtomicU64, Ordering};
+
+static COUNTER: AtomicU64 = AtomicU64::new(0);
+
+pub struct Scratch(pub PathBuf);
+impl Drop for Scratch {
+    fn drop(&mut self) {
+        let _ = std::fs::remove_dir_all(&self.0);
+    }
+}
+
+pub fn scratch_dir() -> Scratch {
+    let base = std::env::var("RVH_TMP").map(PathBuf::from).unwrap_or_else(|_| std::env::temp_dir());
+    let n = COUNTER.fetch_add(1, Ordering::SeqCst);
+    let p = base.join(format!("rvh-{}-{}", std::process::id(), n));
+    let _ = std::fs::remove_dir_all(&p);
+    std::fs::create_dir_all(&p).expect("scratch dir");
+    // resolve symlinks in the temp location so that lexical and canonical paths agree
+    Scratch(p.canonicalize().expect("canonicalize scratch"))
+}
+
+fn yaml_text_of_content(c: &mut J) -> Result<String, String> {
+    // structured content: {"classes":[..],"applications":[..],"parameters":<yaml map>}; any part optional
+    let mut doc = serde_yaml::Mapping::new();
+    if let Some(cl) = c.get("classes") {
+        doc.insert("classes".into(), serde_yaml::to_value(cl).map_err(|e| e.to_string())?);
+    }
+    if let Some(ap) = c.get("applications") {
+        doc.insert("applications".into(), serde_yaml::to_value(ap).map_err(|e| e.to_string())?);
+    }
+    if let Some(p) = c.get_mut("parameters") {
+        let y = yaml_of_json(p)?;
+        *p = json_of_yaml(&y);
+        doc.insert("parameters".into(), y);
+    }
+    serde_yaml::to_string(&serde_yaml::Value::Mapping(doc)).map_err(|e| e.to_string())
+}
+
+/// Write the request's files below `root`.
+pub fn materialise(root: &Path, files: &mut [J]) -> Result<(), String> {
+    for f in files.iter_mut() {
+        let rel = f.get("path").and_then(J::as_str).ok_or("file without path")?.to_string();
+        let p = root.join(&rel);
+        let kind = f.get("kind").and_then(J::as_str).unwrap_or("file").to_string();
+        if let Some(parent) = p.parent() {
+            std::fs::create_dir_all(parent).map_err(|e| format!("mkdir {rel}: {e}"))?;
+        }
+        match kind.as_str() {
+            "dir" => std::fs::create_dir_all(&p).map_err(|e| format!("mkdir {rel}: {e}"))?,
+            "symlink" => {
+                let t = f.get("target").and_then(J::as_str).ok_or("symlink without target")?;
+                std::os::unix::fs::symlink(t, &p).map_err(|e| format!("symlink {rel}: {e}"))?;
+            }
+            _ => {
+                let text = if let Some(raw) = f.get("raw").and_then(J::as_str) {
+                    raw.to_string()
+                } else if let Some(c) = f.get_mut("content") {
+                    yaml_text_of_content(c)?
+                } else {
+                    String::new()
+                };
+                if let Some(b) = f.get("raw_bytes").and_then(J::as_array) {
+                    let bytes: Vec<u8> = b.iter().map(|x| x.as_u64().unwrap_or(0) as u8).collect();
+                    std::fs::write(&p, bytes).map_err(|e| format!("write {rel}: {e}"))?;
+                } else {
+                    std::fs::write(&p, text).map_err(|e| format!("write {rel}: {e}"))?;
+                }
+            }
+        }
+    }
+    Ok(())
+}
+
+/// Own directory walk, following symlinks (with a depth guard), sorted by name.
+fn list_dir(root: &Path, rel: &mut Vec<String>, out: &mut Vec<(Vec<String>, bool)>, depth: usize) {
+    if depth > 12 {
+        return;
+    }
+    let dir = rel.iter().fold(root.to_path_buf(), |p, s| p.join(s));
+    let Ok(rd) = std::fs::read_dir(&dir) else { return };
+    let mut names: Vec<String> = rd.filter_map(|e| e.ok()).filter_map(|e| e.file_name().into_string().ok()).collect();
+    names.sort();
+    for n in names {
+        rel.push(n);
+        let p = rel.iter().fold(root.to_path_buf(), |p, s| p.join(s));
+        match std::fs::metadata(&p) {
+            Ok(md) if md.is_dir() => {
+                out.push((rel.clone(), false));
+                list_dir(root, rel, out, depth + 1);
+            }
+            Ok(_) => out.push((rel.clone(), true)),
+            Err(_) => {}
+        }
+        rel.pop();
+    }
+}
+
+fn str_list(v: Option<&serde_yaml::Value>) -> Option<Vec<String>> {
+    match v {
+        None => Some(vec![]),
+        Some(serde_yaml::Value::Sequence(s)) => s.iter().map(|x| x.as_str().map(str::to_string)).collect(),
+        _ => None,
+    }
+}
+
+/// Post-YAML content of a class/node file as the model consumes it, or `{"bad": why}`.
+fn parsed_content(p: &Path) -> J {
+    let Ok(text) = std::fs::read_to_string(p) else { return json!({"bad": "unreadable"}) };
+    let Ok(doc) = serde_yaml::from_str::<serde_yaml::Value>(&text) else { return json!({"bad": "invalid yaml"}) };
+    let serde_yaml::Value::Mapping(m) = doc else { return json!({"bad": "document is not a mapping"}) };
+    let Some(classes) = str_list(m.get("classes")) else { return json!({"bad": "classes is not a list of strings"}) };
+    let Some(apps) = str_list(m.get("applications")) else { return json!({"bad": "applications is not a list of strings"}) };
+    let params = match m.get("parameters") {
+        None => serde_yaml::Mapping::new(),
+        Some(serde_yaml::Value::Mapping(pm)) => pm.clone(),
+        _ => return json!({"bad": "parameters is not a mapping"}),
+    };
+    let merged = match yaml_merge_keys::merge_keys_serde(serde_yaml::Value::Mapping(params)) {
+        Ok(v) => v,
+        Err(_) => return json!({"bad": "merge keys"}),
+    };
+    json!({"apps": apps, "classes": classes, "params": json_of_yaml(&merged)})
+}
+
+fn listing_json(root: &Path) -> J {
+    let mut out = vec![];
+    list_dir(root, &mut vec![], &mut out, 0);
+    let mut arr = vec![];
+    for (rel, is_file) in out {
+        let mut e = Map::new();
+        e.insert("rel".into(), json!(rel));
+        e.insert("file".into(), json!(is_file));
+        let name = rel.last().unwrap();
+        let ext = Path::new(name).extension().and_then(|x| x.to_str()).unwrap_or("");
+        if is_file && (ext == "yml" || ext == "yaml") {
+            let p = rel.iter().fold(root.to_path_buf(), |p, s| p.join(s));
+            e.insert("parsed".into(), parsed_content(&p));
+        }
+        arr.push(J::Object(e));
+    }
+    J::Array(arr)
+}
+
+pub fn make_config(root: &Path, cfg: &J) -> anyhow::Result<Config> {
+    let inv = root.to_str().unwrap();
+    let ignore = cfg.get("ignore_class_notfound").and_then(J::as_bool);
+    let mut c = Config::new(Some(inv), None, None, ignore)?;
+    if let Some(b) = cfg.get("compose_node_name").and_then(J::as_bool) {
+        c.compose_node_name = b;
+    }
+    if cfg.get("literal_dots").and_then(J::as_bool) == Some(true) {
+        c.compatflags.insert(CompatFlag::ComposeNodeNameLiteralDots);
+    }
+    if let Some(ps) = cfg.get("patterns").and_then(J::as_array) {
+        let ps: Vec<String> = ps.iter().filter_map(|p| p.as_str().map(str::to_string)).collect();
+        c.set_ignore_class_notfound_regexp(ps)?;
+    }
+    Ok(c)
+}
+
+fn rel_str(root: &Path, s: &str) -> String {
+    s.replace(root.to_str().unwrap(), "<ROOT>")
+}
+
+fn entities_json(v: Vec<(String, PathBuf, PathBuf)>) -> J {
+    let mut m = BTreeMap::new();
+    for (k, p, l) in v {
+        m.insert(k, json!([p.to_string_lossy(), l.to_string_lossy()]));
+    }
+    json!(m)
+}
+
+pub fn nodeinfo_json(root: &Path, n: &verif::NodeInfo) -> J {
+    json!({
+        "apps": n.applications,
+        "classes": n.classes,
+        "params": mapping_to_json(&n.parameters),
+        "meta": {"node": n.reclass.node, "name": n.reclass.name, "uri": rel_str(root, &n.reclass.uri), "environment": n.reclass.environment},
+    })
+}
+
+pub fn run(req: &mut J) -> Result<J, String> {
+    let scratch = scratch_dir();
+    let root = scratch.0.clone();
+    {
+        let files = req.get_mut("files").and_then(J::as_array_mut).ok_or("missing files")?;
+        materialise(&root, files)?;
+    }
+    std::fs::create_dir_all(root.join("nodes")).ok();
+    std::fs::create_dir_all(root.join("classes")).ok();
+    let listing = json!({"nodes": listing_json(&root.join("nodes")), "classes": listing_json(&root.join("classes"))});
+    req.as_object_mut().unwrap().insert("listing".into(), listing);
+    let cfgj = req.get("config").cloned().unwrap_or(json!({}));
+    let mut obs = Map::new();
+    let cfg = match make_config(&root, &cfgj) {
+        Ok(c) => c,
+        Err(e) => {
+            obs.insert("config".into(), json!({"err": rel_str(&root, &format!("{e}"))}));
+            return Ok(J::Object(obs));
+        }
+    };
+    let r = match Reclass::new_from_config(cfg) {
+        Ok(r) => r,
+        Err(e) => {
+            obs.insert("discover".into(), json!({"err": rel_str(&root, &format!("{e}"))}));
+            return Ok(J::Object(obs));
+        }
+    };
+    obs.insert(
+        "discover".into(),
+        json!({"ok": {"nodes": entities_json(verif::entities(&r, true)), "classes": entities_json(verif::entities(&r, false))}}),
+    );
+    // every node alone
+    let mut names: Vec<String> = r.nodes().map_err(|e| e.to_string())?.keys().cloned().collect();
+    names.sort();
+    let mut per = Map::new();
+    let mut singles = BTreeMap::new();
+    for n in &names {
+        let res = r.render_node(n);
+        let j = match &res {
+            Ok(info) => json!({"ok": nodeinfo_json(&root, info)}),
+            Err(e) => json!({"err": rel_str(&root, &format!("{e}"))}),
+        };
+        singles.insert(n.clone(), j.clone());
+        per.insert(n.clone(), j);
+    }
+    obs.insert("nodes".into(), J::Object(per));
+    // the whole inventory
+    let inv = r.render_inventory();
+    let invj = match &inv {
+        Ok(inv) => {
+            let (apps, classes, nodes) = inv.verif_parts();
+            let mut same = true;
+            let mut nn = BTreeMap::new();
+            for (k, v) in nodes {
+                let j = json!({"ok": nodeinfo_json(&root, v)});
+                if singles.get(k) != Some(&j) {
+                    same = false;
+                }
+                nn.insert(k.clone(), j);
+            }
+            let a: BTreeMap<_, _> = apps.iter().collect();
+            let c: BTreeMap<_, _> = classes.iter().collect();
+            json!({"ok": {"apps": a, "classes": c, "nodes": nn.keys().collect::<Vec<_>>(), "entries_equal_single": same}})
+        }
+        Err(e) => json!({"err": rel_str(&root, &format!("{e}"))}),
+    };
+    obs.insert("inventory".into(), invj);
+    // unknown node
+    if let Err(e) = r.render_node("no-such-node-xyz") {
+        obs.insert("unknown".into(), json!({"err": format!("{e}")}));
+    }
+    Ok(J::Object(obs))
 }
